@@ -58,6 +58,9 @@ CHECKS = {
  "C02": dict(cat="exploration", tech="trace monitor on the real keyper's trigger channel judged against database snapshots; generated block/registration/eon-state histories; shares messages of the real KeyShareHandler + middleware matched against observed triggers",
    text="A real shutterservice.Keyper runs processNewBlock over histories of blocks (increasing/equal/decreasing timestamps) with three keyper sets in generated DKG/membership/activation states, identities with release times at T-1/T/T+1, event-trigger rows fired/not fired/decrypted, decrypted flags set through the real queries and restarts; every trigger is judged identity by identity (strictly later timestamp, activation reached, fired no later than expiry, member, newest eon succeeded, not decrypted, sorted and distinct, one set per trigger), and every shares message sent must repeat an observed trigger.",
    note="Go toolchain; pgmem; ethfake; gossipnet Service node; shutterservice verif hooks (VerifNewKeyper, VerifProcessNewBlock)", ref="§3 C02"),
+ "C03": dict(cat="exploration", tech="virtual gossip network with a schedule enumerator/sampler over real nodes (real validators, handlers, middleware, key share handler on pgmem); oracle at quiescence and at every delivery",
+   text="n real nodes of one flavour (core, Gnosis, Shutter-service) exchange the bytes their code produces; for n=3,t=2 every triggered subset and every causally feasible per-node order of {own trigger, arrival of each shares message (kept or lost, <= n-t lost)} x keys-message placement is executed, plus sampled schedules for n<=5 with duplicates and two identities: every honest message must be accepted by honest peers (and Gnosis keys messages by the access node), every stored key must be the correct one, and whenever a keyper derived the key every node must store it at quiescence. Two liveness gaps under message loss are recorded as known findings.",
+   note="Go toolchain; pgmem (Snapshot/Restore per schedule); gossipnet (libp2p replaced by direct delivery); fixtures.EonKeys; verif hooks", ref="§3 C03"),
 }
 
 NOT_APPLICABLE = {
